@@ -219,6 +219,8 @@ func c43(sum *lib.Summary) {
 	c.compare(cadence.NewArray([]cadence.Value{cadence.NewOptional(nil)}).WithType(
 		cadence.NewVariableSizedArrayType(cadence.NewOptionalType(cadence.NewOptionalType(cadence.IntType)))), "corpus:nested-optional", "both-differ:nested-optional-nil")
 
+	sameNameValues(func(v cadence.Value, origin string) { c.compare(v, origin, "") })
+
 	g := NewGen(rng)
 	g.ForCCF = true
 	n := 150
